@@ -253,7 +253,7 @@ func TestVerifC06(t *testing.T) {
 			case 4: // a fault on an address that is not host backed (never recoverable by construction)
 				p := vmPage(uint64(r.intn(511)), uint64(r.intn(512)), uint64(r.intn(512)), uint64(r.intn(512)))
 				if r.chance(50) {
-					g.do("map", p, uint64(1+r.intn(1000)), g.leafFlags()&^0x200|uint64(r.pick(0, 0x202)))
+					g.do("map", p, uint64(1+r.intn(1000)), g.leafFlags()&^0x200) // CoW only on host-backed pages
 				}
 				g.fault(p<<12 | uint64(r.intn(4096)))
 				continue
